@@ -79,9 +79,9 @@ Definition spec_collapse_basal (t : tree) : tree :=
   match t with
   | T i x l e [T i0 x0 l0 e0 k0; T i1 x1 l1 e1 k1] =>
     if (2 <=? Z.of_nat (length k1))%Z then
-      T i x l e (T i0 x0 l0 (try_add_len e0 e1) k0 :: k1)
+      T i x l e (T i0 x0 l0 (bump_len e1 e0) k0 :: k1)
     else if (2 <=? Z.of_nat (length k0))%Z then
-      T i x l e (k0 ++ [T i1 x1 l1 (try_add_len e1 e0) k1])
+      T i x l e (k0 ++ [T i1 x1 l1 (bump_len e0 e1) k1])
     else t
   | _ => t
   end.
